@@ -160,8 +160,8 @@ struct C08 : Check {
 				int reg = r.chance(3, 5) ? 0 : r.chance(2, 3) ? 'a' + (int) r.below(3) : 'A' + (int) r.below(3);
 				if (k == 0) {
 					c.kind = "place";
-					static const char *pm[] = {"G", "G", "G", "|", "|", "w", "b", "e", "W", "B", "E", "0", "^", "$", "h", "l"};
-					c.mot = pm[r.below(16)];
+					static const char *pm[] = {"G", "G", "G", "|", "|", "w", "b", "e", "W", "B", "E", "0", "^", "$", "h", "l", "j", "k", "j", "k"};
+					c.mot = pm[r.below(20)];
 					if (c.mot == "G") c.c1 = (int) r.range(1, std::max(1, E.n()));
 					else if (c.mot == "|") c.c1 = (int) r.range(1, 40);
 					else if (c.mot != "0" && c.mot != "$" && c.mot != "^") c.c1 = c1;
@@ -246,10 +246,11 @@ struct C08 : Check {
 	// ---- oracle
 	vim::Ed E;
 	bool dead = false;
+	bool xcol_known = true;	// the column j/k aim for is defined by the reference (not after corners / failing commands)
 	int prev_top = 0;
 	static const int *watch() { static const int w[] = {0, 'a', 'b', 'c', '1', '2', '3', '4', '5', '6', '7', '8', '9', -1}; return w; }
 
-	void begin(RunCtx &c) override { E = vim::Ed(); dead = false; prev_top = 0; E.ai = c.plan.meta.boolean("ai", true); }
+	void begin(RunCtx &c) override { E = vim::Ed(); dead = false; xcol_known = true; prev_top = 0; E.ai = c.plan.meta.boolean("ai", true); }
 
 	void adopt_text(RunCtx &c) { E.M.b.clear(); for (auto &l : c.text()) E.M.b.push_back(vim::dec(l)); }
 	void adopt_cursor(RunCtx &c)
@@ -296,8 +297,11 @@ struct C08 : Check {
 			{ int fc = E.M.fcmd; unsigned fh = E.M.fch; E = before; E.M.fcmd = fc; E.M.fch = fh; }
 			adopt_text(c); adopt_cursor(c);
 			for (const int *w = watch(); *w >= 0; w++) adopt_reg(c, *w);
+			xcol_known = false;
 			return;
 		}
+		bool jk = cmd.kind == "place" && (cmd.mot == "j" || cmd.mot == "k");
+		if (jk && !xcol_known) o.col_free = true;
 		if (o.fail) { vim::Ed keep = E; E = before; E.M.fcmd = keep.M.fcmd; E.M.fch = keep.M.fch; }
 		c.compared();
 		c.count(o.fail ? "failing_commands_judged" : "commands_judged");
@@ -343,7 +347,16 @@ struct C08 : Check {
 		}
 		// adopt what the reference leaves open, and resynchronise after a reported difference
 		if (bad) { adopt_text(c); for (const int *w = watch(); *w >= 0; w++) adopt_reg(c, *w); }
-		adopt_cursor(c);
+		{
+			// j and k keep the column they aim for; everything else that succeeded defines it anew
+			int keep = E.M.xcol;
+			bool exact = !o.cursor_follow && o.alts.empty() && !o.col_free && !bad;
+			adopt_cursor(c);
+			if (jk && !o.fail) E.M.xcol = keep;
+			else if (o.fail) { xcol_known = false; }
+			else xcol_known = (exact || cmd.kind == "place") && !(cmd.kind == "op" && cmd.op == 'y');	// (a yank that moves the cursor: whether j/k then aim for the new column is left open)
+			if (cmd.kind == "place" && cmd.mot == "|" && !o.fail) E.M.xcol = cmd.c1 - 1;
+		}
 		Fnv h; for (auto &l : text) h.str(l); h.num((unsigned long long) c.row() * 4096 + (unsigned long long) c.off());
 		c.state(h.h);
 	}
